@@ -296,9 +296,20 @@ func (r *Run) evaluate(cases []genCase) (disagree int, judgedViolations int) {
 	res := r.Res
 	impl := make([]string, len(cases))
 	lines := make([]string, len(cases))
+	hangs := 0
 	for i, c := range cases {
 		impl[i] = SafeExec(p, c.in)
 		lines[i] = p.ID + " m " + c.line
+		if impl[i] == "hang" {
+			// the abandoned goroutine still spins; two such cases are enough to
+			// report, the rest of the batch would only be slowed down by them
+			hangs++
+			if hangs >= 2 {
+				r.Note("stopped after %d cases that did not come back within the per-case time limit; %d cases of this batch were not run", hangs, len(cases)-i-1)
+				cases, impl, lines = cases[:i+1], impl[:i+1], lines[:i+1]
+				break
+			}
+		}
 	}
 	model, err := DriverBatch(r.Driver, lines)
 	if err != nil {
@@ -325,6 +336,14 @@ func (r *Run) evaluate(cases []genCase) (disagree int, judgedViolations int) {
 			res.Distribution[t]++
 		}
 		res.Outcomes[outcomeKey(impl[i])]++
+		if impl[i] == "hang" {
+			// no answer at all: the property cannot hold on this input whatever it asks of the answer
+			disagree++
+			judgedViolations++
+			res.NDisagreements++
+			r.AddViolation(Finding{Kind: "failing-input", Class: "impl-differs case-does-not-terminate", Input: c.line, Impl: impl[i], Model: mo, Detail: "the implementation did not come back within the per-case time limit (VERIF_EXEC_TIMEOUT, default 180s); the model answers"})
+			continue
+		}
 		if mo != impl[i] {
 			disagree++
 			res.NDisagreements++
